@@ -32,6 +32,9 @@ def is_concrete_key(k):
         return all(is_concrete_key(x) for x in k)
     if isinstance(k, (type, types.FunctionType)):
         return True
+    import enum
+    if isinstance(k, enum.Enum):
+        return True
     return False
 
 
@@ -172,6 +175,7 @@ def container_eq(I, a, b):
             return False
         rs = [to_z3_bool(r) for r in rs if r is not True]
         return norm_bool(z3.And(rs)) if rs else True
+    a, b = list(a), list(b)
     if len(a) != len(b):
         # symbolic keys could coincide; shape is kept duplicate-free by set_add
         return False
